@@ -107,6 +107,13 @@ def grid(tier):
     pairs = [("1/cm", "eV"), ("eV", "THz"), ("meV", "1/cm"), ("int", "1/cm")]
     if tier == "thorough":
         pairs = pairs + [("THz", "J"), ("Ha", "meV"), ("1/cm", "int")]
+    spec = {"E": [12000, 12300, 12150], "J": [[0, 100, -40], [100, 0, 60], [-40, 60, 0]],
+            "d": [[1.0, 0.0, 0.0], [0.0, 1.0, 0.0], [0.5, 0.5, 0.0]], "T": 300,
+            "bath": [{"ftype": "OverdampedBrownian", "reorg": 30 + 5 * i, "cortime": 50, "matsubara": 10} for i in range(3)],
+            "time": [0.0, 100, 1.0]}
+    for call in CALLS:
+        for u, outer in (("1/cm", None), ("eV", "THz")):
+            yield {"kind": "call", "call": call, "u": u, "spec": spec, "outer": outer}
     for acc in ACCESSORS:
         for k, (u1, u2) in enumerate(pairs):
             yield {"kind": "matrix", "acc": acc, "u1": u1, "u2": u2, "v": 137 + 911 * k, "v2": 41 - 30 * k,
